@@ -26,6 +26,7 @@ func checkC10(ctx *Ctx, r *Report) {
 	c10EnumValueDefaultAgreement(ctx, r)
 	c10PythonMutableDefaults(ctx, r)
 	c10ThirdRound(ctx, r)
+	c08TypeListThroughWalkers(ctx, r)
 	inProgressRestored(ctx, r, []string{"internal/jennies/golang/rawtypes.go", "internal/jennies/java/types.go"}, 2)
 }
 
@@ -458,6 +459,18 @@ func c10FrontierReads(ctx *Ctx, r *Report) {
 					}
 					if !isAny {
 						return true
+					}
+					// a store *into* the library field (of a local copy of the schema) reads nothing
+					if as, ok := parents[ast.Node(x)].(*ast.AssignStmt); ok {
+						isTarget := false
+						for _, l := range as.Lhs {
+							if l == ast.Expr(x) {
+								isTarget = true
+							}
+						}
+						if isTarget {
+							return true
+						}
 					}
 					// the expression that carries the value: X.F, X.F[i]
 					var carrier ast.Expr = x
